@@ -9,15 +9,10 @@ AUDIT = "C16"
 THEOREMS = [
     "Typedpy.C16.stub_names_agree", "Typedpy.C16.stub_names_are_nonconstant_fields",
     "Typedpy.C16.stub_required_agree", "Typedpy.C16.stub_default_iff",
-    "Typedpy.C16.stub_kw_iff", "Typedpy.C16.stub_kw_agree_partial", "Typedpy.C16.stub_kw_disagree",
-    "Typedpy.C16.helper_fields_agree", "Typedpy.C16.stub_params_agree_partial",
-    "Typedpy.C16.stub_params_agree_default_on", "Typedpy.C16.stub_mandatory_first",
+    "Typedpy.C16.stub_kw_iff",
+    "Typedpy.C16.helper_fields_agree", "Typedpy.C16.stub_mandatory_first",
     "Typedpy.C16.stub_perm_invariant", "Typedpy.C16.stub_set_invariant", "Typedpy.C16.stub_imports_sorted",
-    "Typedpy.C16.required_optional_fixed_example", "Typedpy.C16.inherited_addl_counterexample",
-    "Typedpy.C16.C16_statement_false", "Typedpy.C16.stub_params_agree_example",
-    "Typedpy.C16.stub_sigkw_iff", "Typedpy.C16.sig_kwargs_not_admitted_iff", "Typedpy.C16.stub_sigkw_agree_partial",
-    "Typedpy.C16.stub_sigkw_disagree", "Typedpy.C16.stub_kw_matches_constructor_in_off_region",
-    "Typedpy.C16.inherited_addl_off_counterexample", "Typedpy.C16.C16_signature_statement_false",
+    "Typedpy.C16.required_optional_fixed_example", "Typedpy.C16.stub_params_agree_example",
     "Typedpy.C16.stub_init_text_parses",
     "Typedpy.C16.stub_helper_text_parses",
     "Typedpy.C16.init_text_parses_of_mandatory_first",
@@ -29,12 +24,22 @@ THEOREMS = [
     "Typedpy.C16.name_clash_counterexample",
     "Typedpy.C16.stub_text_example",
     "Typedpy.C16.parse_rejects_examples",
+    "Typedpy.C16.lex_render_roundtrip", "Typedpy.C16.stub_init_text_accepted",
+    "Typedpy.C16.stub_helper_text_accepted", "Typedpy.C16.stub_method_text_accepted",
+    "Typedpy.C16.stub_kw_agree",
+    "Typedpy.C16.sig_kwargs_iff_admitted",
+    "Typedpy.C16.stub_sigkw_agree",
+    "Typedpy.C16.stub_kw_apd_iff",
+    "Typedpy.C16.stub_params_agree",
+    "Typedpy.C16.C16_statement_holds",
+    "Typedpy.C16.C16_signature_statement_holds",
+    "Typedpy.C16.fixed_inherited_addl_example",
+    "Typedpy.C16.fixed_inherited_addl_off_example",
     "Typedpy.C16.stub_kw_apd_declared", "Typedpy.C16.stub_kw_apd_undeclared",
     "Typedpy.C16.stubD_names_agree_iff",
     "Typedpy.C16.stubD_required_agree",
     "Typedpy.C16.stubD_kw_iff",
-    "Typedpy.C16.stubD_sigkw_iff",
-    "Typedpy.C16.stubD_sigkw_is_define",
+    "Typedpy.C16.stubD_sigkw_agree", "Typedpy.C16.stubD_sigkw_is_define",
     "Typedpy.C16.stubD_mandatory_first",
     "Typedpy.C16.stubD_init_text_parses",
     "Typedpy.C16.stubD_diamond_example",
